@@ -19,11 +19,13 @@ package main
 //     `*p = (*p)[:cap(*p)]` (engine.go, body.go), which makes len == cap > requested size.
 //
 // Relative targets T for a handle with length l and capacity c (relTargets): the growth factors
-// below, at and above 2x of both: c+1, 2l-1, 2l, 2l+1, 2c-1, 2c, 2c+1, 3c+1 (wide set: also l+1,
-// c, 2c-l, 2c-l+1, 4c, 4l+1), used as Realloc(T) and as Append/AppendString of T-l bytes. Only
-// targets that grow the buffer and that the absolute alphabet does not contain are added.
-// Programs stay concrete (the derived number is written into the operation), so replay and
-// shrinking work as before.
+// below, at and above 2x of both: c+1, 2l-1, 2l, 2l+1, 2c-1, 2c, 2c+1, 3c+1, and l+1, c, 2c-l,
+// 2c-l+1, 4c, 4l+1 (both tiers use the whole set; the narrow variant is kept for experiments),
+// used as Realloc(T) and as Append/AppendString of T-l bytes, any number of them per program,
+// up to relCeil. Only targets that grow the buffer and that the absolute alphabet does not
+// contain are added. Programs stay concrete (the derived number is written into the operation),
+// so replay and shrinking work as before. The tiers differ in depth: 4 (quick) / 5 (thorough);
+// the aligned allocator's 32 KiB boundary 3 / 4.
 
 import "fmt"
 
@@ -130,8 +132,7 @@ func growthClass(o op, l, c int) string {
 }
 
 // extConfigs: the allocators of the extended search. The absolute alphabets are reduced to the
-// values on both sides of each boundary (the full sets run in the general search); quick allows
-// one relative operation per program, thorough any number from the wide set.
+// values on both sides of each boundary (the full sets run in the general search).
 func extConfigs(tier string) []*acfg {
 	wide := true // (the narrow set saves nothing worth having: measured 2.4 s -> 4 s CPU per allocator)
 	relMax := 0
@@ -141,7 +142,7 @@ func extConfigs(tier string) []*acfg {
 	return []*acfg{
 		mk("pooled(8,32)", "pooled", 8, 32, []int{0, 1, 8, 9, 32, 33}, []int{1, 9}),
 		mk("pooled(64,64)", "pooled", 64, 64, []int{0, 1, 64, 65}, []int{1, 65}),
-		mk("pooled(1024,1073741824)", "pooled", 1024, 1 << 30, []int{0, 1, 1024, 1025}, []int{1, 1025}),
+		mk("pooled(1024,1073741824)", "pooled", 1024, 1<<30, []int{0, 1, 1024, 1025}, []int{1, 1025}),
 		// the aligned allocator's 32 KiB boundary makes every operation cost a 32-128 KiB fill and
 		// dump: the small classes and the boundary run as two searches with different depth bounds
 		mk("aligned", "aligned", 0, 0, []int{0, 1, 32, 33, 100}, []int{1, 33}),
